@@ -383,7 +383,7 @@ class Residue : public Engine {
             cls = r.chance(2, 3) ? ARR_POOL : ARR_FULL64;
             if (op.kind == "adaptive.decode") op.set("enc", VARINT_ADAPTIVE_TAGGED);
         }
-        if (r.chance(1, tier == Tier::Thorough ? 150 : 1500) && op.kind != "bitmap.roundtrip" && op.kind.rfind("adaptive.", 0) != 0) {
+        if (r.chance(1, tier == Tier::Thorough ? 150 : (op.kind.rfind("pfor.", 0) == 0 ? 120 : 500)) && op.kind != "bitmap.roundtrip" && op.kind.rfind("adaptive.", 0) != 0) {
             n = 65537 + r.below(6000); // paths that only exist above 65536 elements
             if (cls == ARR_STRICT_INC16) cls = ARR_CLUSTERED;
         }
@@ -613,6 +613,16 @@ class Residue : public Engine {
             if (recent_.size() > 4000) recent_.erase(recent_.begin());
         }
         return out;
+    }
+
+    // the operations this worker executed before the plan's own (single) operation
+    std::string history_plan(const Plan &plan) override {
+        if (plan.ops.size() != 1 || recent_.size() < 2) return std::string();
+        Plan cp = plan;
+        cp.ops.clear();
+        for (size_t i = 0; i + 1 < recent_.size(); i++) cp.ops.push_back(recent_[i]); // the last entry is the operation itself
+        cp.ops.push_back(plan.ops[0]);
+        return cp.to_text();
     }
 
   private:
